@@ -1,4 +1,5 @@
 import Hoot.Oracle.BodyW
+import Hoot.Oracle.BodyR
 
 /-! Dispatch of the per-property oracles. -/
 
@@ -14,4 +15,6 @@ def oracleFor (pid : String) (c : TCase) : Verdict :=
   | "C04" => (match noPanic c with | .ok => oracleC04 c | v => v)
   | "C18" => (match noPanic c with | .ok => oracleC18 c | v => v)
   | "C19" => (match noPanic c with | .ok => oracleC19 c | v => v)
+  | "C07" => (match noPanic c with | .ok => oracleC07 c | v => v)
+  | "C08" => (match noPanic c with | .ok => oracleC08 c | v => v)
   | _ => noPanic c
